@@ -6,8 +6,11 @@
    (`zstd <compressed> <inflated>`), LZ4 blocks are inflated by the extracted Lz4.lz4_decode.  Printed:
      dec <comp> <reading> OK / node.. prop.. / enddom  |  dec <comp> <reading> ERR <code>  |  dec .. SAME <comp> <reading>
      clauses <comp> <name>=<0|1> ...
+     sstr-entry <md5-field-hex> <content-hex>      (uncompressed file only; the MD5 field is checked by the Python handler)
+     nofiles                                       (the serializer returned Err for this DOM under every compression)
    C04 cases (`opt mode c04`: a logical file + choices):
-     wf <bs_wf> <bs_doc_wf> / bytes literal <hex> / bytes amended <hex>|SAME / chunks <n> (<name> <payload>)* /
+     wf <bs_wf> <bs_doc_wf> / bytes literal <hex>|SAME / bytes amended <hex> / bytes only-<amendment> <hex>|SAME (the amended
+     reading with one amendment withdrawn) / chunks <n> (<name> <payload>)* /
      rt <reading> OK|DIFF|ERR <code> / dom OK .. enddom | dom ERR <code>
    No model logic here: parsing, printing and calling the extracted functions. *)
 open Model
@@ -201,6 +204,13 @@ let run_c04 oc (lines : string list) =
   let lit = bspec_encode bs_literal ch f and am = bspec_encode bs_amended ch f in
   Printf.fprintf oc "bytes literal %s\n" (if lit = am then "SAME" else hex_of_bytes lit);
   Printf.fprintf oc "bytes amended %s\n" (hex_of_bytes am);
+  (* one amendment withdrawn at a time: which literal reading of the document the real reader does not follow *)
+  List.iter (fun (nm, rd) ->
+    let b = bspec_encode rd ch f in
+    Printf.fprintf oc "bytes only-%s %s\n" nm (if b = am then "SAME" else hex_of_bytes b))
+    [("uniqueid-layout", { bs_amended with rd_uid_be = false; rd_uid_rot = false });
+     ("sharedstring-index-endianness", { bs_amended with rd_sstr_be = false });
+     ("content-sourcetypes", { bs_amended with rd_content_types_i32 = false })];
   let chunks = bspec_encode_chunks bs_amended ch f in
   let b = Buffer.create 4096 in
   Buffer.add_string b (Printf.sprintf "chunks %x" (List.length chunks));
